@@ -127,15 +127,15 @@ static void explore(Result& R) {
         if (!err.empty()) R.violation(clause_of(err) + "|axis=" + AXN[a], case_json(c) + ": " + err, "mode=single\ncase=" + case_text(c) + "\n");
         if (cases % 150 == 1) R.sample(case_json(c)); }
 pop:
-    long pops = 0, divisions = 0;
+    long pops = 0, divisions = 0, pops_with_division = 0;
     for (int mask = 0; mask < 8; mask++) for (int k = 0; k < (th ? 6 : 2); k++) { if (!R.args.mine(unit++)) continue; pops++; int nd = 0; std::string r;
         ForkOut fo = run_forked([&](char* buf, size_t cap) { int d = 0; std::string x = run_population(mask, k, &d); snprintf(buf, cap, "%d|%s", d, x.c_str()); }, 120);
         std::string err; if (fo.status != 0) err = "exception-or-crash-escapes-cell_divider-run: status " + std::to_string(fo.status); else { nd = atoi(fo.data.c_str()); r = fo.data.substr(fo.data.find('|') + 1); if (r != "ok") err = r; }
-        divisions += nd; if (!err.empty()) R.violation(clause_of(err) + "|population", "3 epithelial cells + 1 lumen, ready mask " + std::to_string(mask) + ", seed " + std::to_string(k) + ": " + err, "mode=population\nmask=" + std::to_string(mask) + "\nseed=" + std::to_string(k) + "\n"); }
-    R["evaluations"] = cases + pops; R["states"] = cases + pops; R["transitions"] = cases + pops; R["distinct_nontrivial"] = cases + pops; R["traces_validated_against_impl"] = cases + pops;
+        divisions += nd; if (nd) pops_with_division++; if (!err.empty()) R.violation(clause_of(err) + "|population", "3 epithelial cells + 1 lumen, ready mask " + std::to_string(mask) + ", seed " + std::to_string(k) + ": " + err, "mode=population\nmask=" + std::to_string(mask) + "\nseed=" + std::to_string(k) + "\n"); }
+    R["evaluations"] = cases + pops; R["states"] = cases + pops; R["transitions"] = cases + pops; R["distinct_nontrivial"] = ok + pops_with_division; R["traces_validated_against_impl"] = cases + pops;
     R["divisions_succeeded"] = ok; R["divisions_failed_cleanly"] = fail; R["population_runs"] = pops; R["divisions_in_population_runs"] = divisions; R.reals["worst_relative_volume_defect"] = worst;
     if (R.args.nshards == 1 && (!ok || !fail)) R.internal_error = "successes or clean failures never occurred (vacuous)";
-    R.strings["rule"] = "single divisions: every (shape, division axis forced through the virtual get_cell_division_axis, minimum edge length, RNG seed) runs the real cell_divider::divide_cell in a forked child; success => two daughters of the mother's class and type, each passing the independent mesh oracle, each on its own side of the plane through the mother's centroid, volumes adding up within the calibrated remeshing tolerance, target volume exactly half; failure => mother's triangle soup, target volume and validity unchanged, nothing escapes; populations: every subset of 3 ready cells (+1 lumen that must never divide) through cell_divider::run";
+    R.strings["rule"] = "distinct_nontrivial = single divisions that succeeded (two daughters judged) + population runs with at least one division (cases are distinct tuples by construction); single divisions: every (shape, division axis forced through the virtual get_cell_division_axis, minimum edge length, RNG seed) runs the real cell_divider::divide_cell in a forked child; success => two daughters of the mother's class and type, each passing the independent mesh oracle, each on its own side of the plane through the mother's centroid, volumes adding up within the calibrated remeshing tolerance, target volume exactly half; failure => mother's triangle soup, target volume and validity unchanged, nothing escapes; populations: every subset of 3 ready cells (+1 lumen that must never divide) through cell_divider::run";
     R.assumptions = {"volume tolerance 35% (calibrated: the refinement of the freshly cut 42-162 node daughters changes the volume by up to 25% on the unchanged tree); the worst observed defect is reported", "RNG outcomes: the enumerated seeds of the guarded seam only", "l_min: three values for which the mother mesh lies inside [l_min, 3 l_min] (low end, geometric middle, high end) and one far too large, for which only no-escape / mother-untouched / topological validity are judged"};
 }
 static int replay(const Replay& rp, Result& R) { setup(); std::string r;
